@@ -390,9 +390,42 @@ def classify_failure(text, obs, ref, doc, dlab):
     return {"stream:expected=%s:got=%s" % (exp, got)}
 
 
+def strings_reaching(dfa, target, maxlen=6, limit=4000):
+    """Strings (code point lists) over printable representatives that lead the automaton from its start to [target]."""
+    reps = [0x22, 0x2F, 0x5C, 0x2A, 0x61, 0x41, 0x30, 0x20, 0x5F, 0x24, 0x40]
+    out, frontier, n = [], [([], dfa.start)], 0
+    for _ in range(maxlen):
+        nxt = []
+        for w, q in frontier:
+            for c in reps:
+                t = dfa.step(q, c)
+                if t is None:
+                    continue
+                n += 1
+                if n > limit:
+                    return out
+                nxt.append((w + [c], t))
+                if t == target:
+                    out.append(w + [c])
+        frontier = nxt
+    return out
+
+
 def drive_witness(witness, go, doc, dlab, rep):
     hook = C.Hook()
     found = False
+    # the tables may agree on every transition and differ only in how a lexeme is cut: try the strings reaching that state
+    q = go.run(witness)
+    if q is not None:
+        for w in sorted(strings_reaching(go, q), key=len):
+            text = "".join(chr(c) for c in w) + " x\n"
+            o = obs_of_hook(hook.call({"op": "lex", "text": text}))
+            r = max_munch(doc, dlab, C.codepoints(text) + [10])
+            if not same_obs(o, r):
+                rep.failure("stream", {"stream"}, {"input_text": text, "input_codepoints": C.codepoints(text), "observed": o,
+                                                   "expected_by_documented_automaton": r})
+                hook.close()
+                return True
     tails = ["", " ", "\n", " x\n", "/ x\n", "*/ x\n", "\"\n", "/\n"]
     for tail in tails:
         text = "".join(chr(c) for c in witness) + tail
